@@ -19,7 +19,11 @@ with the zone's own name and class;
 (d) check_mtime reuses the loaded zone only under `Loaded` && same path && mtime <= loaded mtime; every other arm
 loads (or records the failure when the metadata cannot be read);
 (e) reload_zones_and_keys installs the new catalog and keys only after both were built, and builds the catalog from
-the currently served one.
+the currently served one;
+(f) across reloads: the catalog that try_running hands to reload_zones_and_keys as the previous one is the most recently
+installed catalog -- the local is re-assigned from the Ok result of every reload (or read back from the server) --
+and reload_zones_and_keys returns the very catalog it installed; otherwise a zone that fails on the second reload
+falls back to its start-up data instead of its latest good data.
 Not decided: file-system histories, mtime granularity.
 """
 ASSUMPTIONS = ['every CFG path is assumed feasible', 'Catalog::get is the exact-match API (C22 (c))']
@@ -176,3 +180,26 @@ def check(R, F):
         prev = paths.show_operand(rl, zr[0][1]['args'][1])
         ok = ok and prev == 'arg3'
     R.require(ok, 'reload', 'quandaryd::run::reload_zones_and_keys|build-then-install', rl.where(), 'catalog and keys are installed only after both were built; the catalog is rebuilt from the served one', 'reload does not build both the new catalog (from the current one) and the keys before installing them')
+
+    # ---- (f) the "previous" catalog follows every successful reload
+    tr = F.fn('quandaryd::run::try_running')
+    rc = calls_in(tr, 'run::reload_zones_and_keys')
+    R.require(len(rc) == 1, 'reload-chain', 'quandaryd::run::try_running|one-reload-site', tr.where(), 'one reload call site', 'expected one reload_zones_and_keys call in try_running, found %d' % len(rc))
+    if len(rc) == 1:
+        b, t = rc[0]
+        sl = slice_of(tr, t['args'][2])
+        calls = {n for n in sl.call_names()}
+        from_server = any(n.endswith('Server::<C>::catalog') for n in calls)
+        from_load = any(n.endswith('zones::load') for n in calls)
+        from_prev_reload = ('call', b) in sl.nodes
+        R.require(from_server or (from_load and from_prev_reload), 'reload-chain', 'quandaryd::run::try_running|previous-is-latest-installed', tr.where(b),
+                  'the previous catalog passed to a reload derives from the start-up load and from the result of the preceding reload',
+                  'the catalog passed to reload_zones_and_keys as the currently served one derives from: start-up load=%s, result of the previous reload=%s, Server::catalog()=%s -- after the first successful reload it is stale, so a zone that then fails falls back to its start-up state' % (from_load, from_prev_reload, from_server))
+        if not from_server:
+            oks = [st for blk in rl.blocks if not blk['cleanup'] for st in blk['stmts'] if st['k'] == 'assign' and st['lhs']['l'] == 0 and not st['lhs']['p'] and st['rv']['k'] == 'agg' and st['rv']['def'].endswith('Result::Ok')]
+            ok = len(oks) == 1 and bool(oks[0]['rv']['ops'])
+            if ok:
+                v = paths.show_operand(rl, oks[0]['rv']['ops'][0])
+                ok = 'zones::reload(' in v
+            R.require(ok, 'reload-chain', 'quandaryd::run::reload_zones_and_keys|returns-installed-catalog', rl.where(), 'returns the catalog it installed', 'reload_zones_and_keys does not return the catalog built by zones::reload')
+    R.floor('reload-chain', 2)
